@@ -246,6 +246,8 @@ class C17(Prop):
 
     def model_runs(self, tier):
         runs = [{"module": "DisplayHook", "cfg": f"DisplayHook_{tier}.cfg", "export": False},
+                # inductive: every state satisfying the chain invariant is an initial state (programs of any length)
+                {"module": "DisplayHookInd", "cfg": f"DisplayHookInd_{tier}.cfg", "export": False},
                 {"module": "DisplayHook", "cfg": f"DisplayHook_{tier}_gen.cfg"}]
         if tier == "thorough":
             runs.append({"module": "DisplayHook", "cfg": "DisplayHook_sim.cfg", "simulate": "num=5000", "depth": 60, "export": False, "timeout": 900})
